@@ -15,7 +15,7 @@ func c04Params(tier string) []*kvops.Params {
 	alpha := []clustermc.Ev{
 		ev("put", 0, 0, ""), ev("put", 0, 0, "NX"), ev("put", 0, 0, "XX"), ev("put", 0, 0, "PX"), ev("put", 0, 0, "EX"),
 		ev("put", 0, 0, "PXAT"), ev("put", 0, 0, "NX+PX"),
-		ev("expire", 0, 0, ""), ev("getput", 0, 0, ""), ev("incr", 0, 1, ""), ev("decr", 0, 1, ""), ev("incrf", 0, 0, ""),
+		ev("expire", 0, 0, ""), ev("expire0", 0, 0, ""), ev("getput", 0, 0, ""), ev("incr", 0, 1, ""), ev("decr", 0, 1, ""), ev("incrf", 0, 0, ""),
 		ev("del", 0, 0, ""), ev("lock", 0, 0, ""), ev("lock", 0, 1, ""), ev("unlock", 0, 0, ""), ev("lease", 0, 0, ""),
 		ev("tick", 0, 1, ""), ev("tick", 0, 1500, ""), ev("evict", 0, 0, ""),
 	}
